@@ -291,6 +291,23 @@ func Monitors(h History, tr *Trace) []Failure {
 			}
 			break
 		}
+		if bt.Comet == "empty" && bt.After != nil && len(prev.CometNext) > 0 {
+			// H-alive (DESIGN.md App. A): x/slashing / x/evidence jailed every member of the set in this block's BeginBlock — possibly for
+			// downtime accumulated in earlier blocks, which the executor's rule (applied when an absence is scheduled) cannot foresee.
+			// With nobody left to sign there is no chain; that is not PoA's doing (its messages of this block were judged with those
+			// validators already jailed). The history ends here and is not a finding.
+			allJailedNow := true
+			for ck := range prev.CometNext {
+				vid, ok := consOwner(prev)[ck]
+				pv, v := prev.Vals[vid], bt.After.Vals[vid]
+				if !ok || pv == nil || v == nil || pv.Jailed || !v.Jailed {
+					allJailedNow = false
+				}
+			}
+			if allJailedNow {
+				break
+			}
+		}
 		if bt.Comet != "ok" {
 			add("C04", "C04/comet-refuses-updates:"+bt.Comet, ht, "updates %v", bt.Updates)
 			// C03: the power a successful SetPower / RemoveValidator of this block assigned never reaches the validator set
